@@ -614,6 +614,9 @@ PROP_DEFECTS = [
     ("items_not_schema", "arr", _set("items", 5)),
     ("length_and_exhaust", "arr", _multi(_set("length", 2), _set("noLengthEncodingExhaustBuffer", True))),
     ("length_and_arrayLengthFormat", "arr", _multi(_set("length", 2), _set("arrayLengthFormat", "B"))),
+    ("length0_and_exhaust", "arr", _multi(_set("length", 0), _set("noLengthEncodingExhaustBuffer", True))),
+    ("length0_and_arrayLengthFormat", "arr", _multi(_set("length", 0), _set("arrayLengthFormat", "B"))),
+    ("length1_and_exhaust", "arr", _multi(_set("length", 1), _set("noLengthEncodingExhaustBuffer", True))),
     ("negative_length", "arr", _set("length", -1)),
     ("fractional_length", "arr", _set("length", 1.5)),
     ("string_length", "arr", _set("length", "2")),
